@@ -427,6 +427,7 @@ def execute(trace: dict) -> Outcome:
         steps=steps,
         sched_events=len(sim.choices),
         interleaving=interleaving,
+        digest=worldrun.world_digest(sim, outs),
     )
 
 
